@@ -21,6 +21,8 @@
 import DiskfsModel.Model.Ranges
 import DiskfsModel.Proofs.PartIO
 import DiskfsModel.Proofs.FatRange
+import DiskfsModel.Proofs.SqfsRange
+import DiskfsModel.Proofs.IsoWrites
 import DiskfsModel.Generated.Fat
 namespace Diskfs.Ranges.C03
 
@@ -303,5 +305,100 @@ set_option maxRecDepth 4000 in
 example : (fstepW (fun a b => a == b) (Layout.ofGeom ⟨.f12, 512, 1, 1, 1, 16, 40⟩ 512 20480) 100
     ⟨fun _ => 0, fun _ => 0, []⟩ (.create [65])).ws.map (fun w => (w.off, w.data.length))
     = [(1024, 512), (1536, 512), (2048, 512)] := by decide
+
+end Diskfs.Ranges.C03
+
+/-! ## squashfs clause: every WriteAt of `Finalize` lies inside [start, start + bytes_used) -/
+namespace Diskfs.Ranges.C03
+
+/-- **squashfs `Finalize`**: in the region mirror of Finalize (Model/Sqfs/Regions.lean: the
+    `location += written` bookkeeping of every writer, for ANY sizes of the pieces, with or without
+    export table / compressor options; tied to the real WriteAt log by the sqfs engine's
+    `sqfs.regions` correspondence) every write, shifted by SubStorage to `start`, lies inside
+    [start, start + bytes_used), so no byte outside that range changes; the code pads nothing
+    (NoPad is not consulted), so bytes_used is the exact end: the writes lie inside
+    [start, start + size) if bytes_used ≤ size, and if bytes_used > size some write ends beyond
+    start + size — Finalize never compares the two (recorded finding sqfs-finalize-exceeds-size). -/
+theorem sqfs_finalize_in_range (p : Sqfs.Pieces) (start size : Nat) (d : Dev) (ws : List Wr)
+    (hws : ws.map (fun w => (w.off, w.data.length)) = (Sqfs.finalize p).writes) :
+    (∀ w ∈ ws.map (subWrite start), start ≤ w.off ∧ w.off + w.data.length ≤ start + (Sqfs.finalize p).bytesUsed) ∧
+    (∀ i, i < start ∨ start + (Sqfs.finalize p).bytesUsed ≤ i → applyWrs d (ws.map (subWrite start)) i = d i) ∧
+    ((Sqfs.finalize p).bytesUsed ≤ size →
+      ∀ w ∈ ws.map (subWrite start), start ≤ w.off ∧ w.off + w.data.length ≤ start + size) ∧
+    (size < (Sqfs.finalize p).bytesUsed → ∃ w ∈ ws.map (subWrite start), start + size < w.off + w.data.length) := by
+  have h := Sqfs.finalize_sub_inside p start ws hws
+  refine ⟨h, fun i hi => writes_in_range_frame d _ start _ h i hi, fun hle w hw => ⟨(h w hw).1, by have := (h w hw).2; omega⟩, ?_⟩
+  intro hlt
+  obtain ⟨v, hv, he⟩ := Sqfs.finalize_write_reaches p
+  rw [← hws] at hv
+  obtain ⟨u, hu, rfl⟩ := List.mem_map.1 hv
+  exact ⟨subWrite start u, List.mem_map.2 ⟨u, hu, rfl⟩, by simp only [subWrite]; simp only at he; omega⟩
+
+/-! non-vacuity: 2 data blocks, 1 fragment block, one block per table; at start 1 MiB -/
+private def sqEx : Sqfs.Pieces := { opt := 8, data := [40, 10], frags := [50], inodes := [20], dirs := [60], fragTbl := [16],
+                                    exportTbl := some [40], idTbl := [4] }
+private def sqWs : List Wr := (Sqfs.finalize sqEx).writes.map fun w => ⟨w.1, zeros w.2⟩
+example : sqWs.map (fun w => (w.off, w.data.length)) = (Sqfs.finalize sqEx).writes := by decide
+example : (Sqfs.finalize sqEx).bytesUsed = 378 ∧
+    ((sqWs.map (subWrite 1048576)).map fun w => (w.off, w.data.length)).take 3 = [(1048672, 8), (1048680, 40), (1048720, 10)] := by decide
+
+end Diskfs.Ranges.C03
+
+/-! ## iso9660 clause: every WriteAt of `Finalize` lies inside [start, start + volume size) -/
+namespace Diskfs.Ranges.C03
+open Diskfs.Iso in
+/-- **iso9660 `Finalize`, plain configuration** (no Rock Ridge, no Joliet, no El Torito).  In the
+    write model of Finalize (Model/Iso/Writes.lean `ImageIn.writesGo`: 16 blocks of system area, one
+    WriteAt per directory extent in whole blocks, L and M path table, one WriteAt per 2048-byte chunk
+    of every file plus the zero fill of its last block, PVD, terminator; tied to the real WriteAt log
+    offset by offset and length by length by the iso engine's `iso.wlog` correspondence of C06), with
+    the locations the layout assigns (`Placed`: root directory at block 18, `location += blocks`),
+    every write — shifted by SubStorage to `start`, which is how `Create` now honours the start offset
+    (fix afa7eac of the earlier finding iso-start-ignored) — lies inside
+    [start, start + volBlocks * blocksize), where `volBlocks` is `totalSize`, the volume size written
+    into the descriptor; so no byte outside changes whatever the device held, and the writes lie inside
+    [start, start + size) whenever the volume fits the size the filesystem was created with.  Finalize
+    itself never compares the two (recorded finding iso-finalize-exceeds-size), hence the premise. -/
+theorem iso_finalize_in_range (i : ImageIn) (start size : Nat) (d : Dev) (hbs : 2048 ≤ i.bs) (hp : i.pvd.WF)
+    (hpl : i.Placed) :
+    (∀ w ∈ i.writesGo.map (subWrite start), start ≤ w.off ∧ w.off + w.data.length ≤ start + i.volBlocks * i.bs) ∧
+    (∀ j, j < start ∨ start + i.volBlocks * i.bs ≤ j → applyWrs d (i.writesGo.map (subWrite start)) j = d j) ∧
+    (i.volBlocks * i.bs ≤ size →
+      ∀ w ∈ i.writesGo.map (subWrite start), start ≤ w.off ∧ w.off + w.data.length ≤ start + size) := by
+  have h : ∀ w ∈ i.writesGo.map (subWrite start), start ≤ w.off ∧ w.off + w.data.length ≤ start + i.volBlocks * i.bs := by
+    intro w hw
+    obtain ⟨u, hu, rfl⟩ := List.mem_map.1 hw
+    exact sub_write_inside start _ u (Iso.writesGo_in_volume i hbs hp hpl u hu)
+  exact ⟨h, fun j hj => writes_in_range_frame d _ start _ h j hj, fun hle w hw => ⟨(h w hw).1, by have := (h w hw).2; omega⟩⟩
+
+/-! non-vacuity: a root directory holding one 3-byte file, 2048-byte blocks; the volume is 22 blocks -/
+private def isoDate : Bytes := [126, 1, 1, 0, 0, 0, 0]
+private def isoT : Iso.PTree :=
+  { n := 2
+    ent := fun i => if i = 0 then { name := [0], isDir := true, loc := 18, size := 104, date := isoDate, content := [] }
+                    else { name := [65, 59, 49], isDir := false, loc := 21, size := 3, date := isoDate, content := [7, 7, 7] }
+    kids := fun d => if d = 0 then [1] else []
+    parent := fun _ => 0 }
+private def isoI : Iso.ImageIn :=
+  { t := isoT, bs := 2048, dirs := [0], files := [1]
+    pvd := { sysId := zeros 32, volId := zeros 32, volSize := 22, setSize := 1, seqNo := 1, blocksize := 2048, ptSize := 10,
+             ptL := 19, ptLopt := 0, ptM := 20, ptMopt := 0, root := isoT.selfRec 0, tail := zeros 1858 }
+    ptLBytes := [1, 0, 18, 0, 0, 0, 1, 0, 0, 0], ptMBytes := [1, 0, 0, 0, 0, 18, 0, 1, 0, 0] }
+private theorem isoLen : (isoT.dirBytes 2048 0).length = 104 := by decide
+private theorem isoPlaced : isoI.Placed := by
+  apply Iso.placed_of_offsets
+  simp only [Iso.ImageIn.mid, isoI, List.map_cons, List.map_nil, List.cons_append, List.nil_append, Iso.padBlock_length, isoLen]
+  simp [Iso.seqAlloc, Iso.blocksFor, Iso.dataStartSector, isoT]
+private theorem isoVol : isoI.volBlocks = 22 := by
+  simp only [Iso.ImageIn.volBlocks, Iso.ImageIn.mid, isoI, List.map_cons, List.map_nil, List.cons_append, List.nil_append,
+    Iso.padBlock_length, isoLen]
+  simp [Iso.blocksFor, Iso.dataStartSector, isoT]
+example : ∀ w ∈ isoI.writesGo.map (subWrite 1048576), 1048576 ≤ w.off ∧ w.off + w.data.length ≤ 1048576 + 22 * 2048 := by
+  have := (iso_finalize_in_range isoI 1048576 0 (fun _ => 255) (by decide)
+    (by simp [Iso.PVD.WF, isoI, isoT, Iso.PTree.selfRec, Iso.PTree.recOf, isoDate]) isoPlaced).1
+  rw [isoVol] at this
+  exact this
+example : (isoI.writesGo.map (subWrite 1048576)).map (·.off) =
+    [1048576, 1085440, 1087488, 1089536, 1091584, 1091587, 1081344, 1083392] := by decide
 
 end Diskfs.Ranges.C03
